@@ -506,12 +506,102 @@ func TestC19Callable(t *testing.T) {
 		case "slice":
 			resOpt = bigbuff.CallResultsSlice(sliceTgt)
 		}
+		resFirst := false
 		if resOpt != nil {
-			if rapid.Bool().Draw(t, "resFirst") {
+			if resFirst = rapid.Bool().Draw(t, "resFirst"); resFirst {
 				opts = []bigbuff.CallOption{resOpt, opts[0]}
 			} else {
 				opts = append(opts, resOpt)
 			}
+		}
+
+		// ---- optionally more than one args / results option in the same Call: options are applied in order, each is
+		// validated against the callable (the first failure is Call's error), and the last args option and the last
+		// results option are the ones in effect; the targets of an overridden results option are never touched
+		var (
+			extraDesc []string
+			untouched []snapshot
+		)
+		extra := rapid.SampledFrom([]string{"none", "none", "none", "preArgs", "preArgs", "preRes", "both"}).Draw(t, "extraOptions")
+		mainArgsPos, mainResPos := 0, -1
+		if resOpt != nil {
+			if resFirst {
+				mainArgsPos, mainResPos = 1, 0
+			} else {
+				mainArgsPos, mainResPos = 0, 1
+			}
+		}
+		if extra == "preArgs" || extra == "both" {
+			var pre []any
+			switch rapid.IntRange(0, 3).Draw(t, "preArgsKind") {
+			case 0: // the same list again
+				pre = append(pre, args...)
+			case 1: // a fresh correct list of other values
+				for i := 0; i < mand; i++ {
+					pre = append(pre, c19Types[inIdx[i]].gen(t, "parg"))
+				}
+				if variadic {
+					for k := rapid.IntRange(0, 3).Draw(t, "ptail"); k > 0; k-- {
+						pre = append(pre, c19Types[inIdx[nIn-1]].gen(t, "ptarg"))
+					}
+				}
+			case 2: // the mandatory part only (valid for variadic signatures, else usually too short)
+				for i := 0; i < mand && i < len(args); i++ {
+					pre = append(pre, args[i])
+				}
+			default: // one value too many, of a drawn type
+				pre = append(pre, args...)
+				pre = append(pre, c19Types[rapid.IntRange(0, len(c19Types)-1).Draw(t, "pextraT")].gen(t, "pextraV"))
+			}
+			preOK := c19ArgsOK(pre, ins, variadic)
+			var d []string
+			for _, a := range pre {
+				d = append(d, c19Describe(a))
+			}
+			at := rapid.IntRange(0, mainArgsPos).Draw(t, "preArgsAt")
+			opts = append(opts[:at], append([]bigbuff.CallOption{bigbuff.CallArgs(pre...)}, opts[at:]...)...)
+			if mainResPos >= at {
+				mainResPos++
+			}
+			mainArgsPos++
+			extraDesc = append(extraDesc, fmt.Sprintf("preArgs@%d(%s) ok=%v", at, strings.Join(d, ","), preOK))
+			if !preOK {
+				argsOK = false
+				perturbed = true
+			}
+		}
+		if (extra == "preRes" || extra == "both") && mainResPos >= 0 {
+			var o bigbuff.CallOption
+			preOK := true
+			if rapid.Bool().Draw(t, "preResSlice") {
+				sl := new([]any)
+				*sl = append(*sl, "kept")
+				untouched = append(untouched, snapshot{ptr: reflect.ValueOf(sl), before: c19Box(reflect.ValueOf(sl).Elem())})
+				o = bigbuff.CallResultsSlice(sl)
+				extraDesc = append(extraDesc, "preRes=slice(*[]any)")
+			} else {
+				var tg []any
+				n := nOut
+				if rapid.IntRange(0, 5).Draw(t, "preResShort") == 0 && nOut > 0 {
+					n, preOK = nOut-1, false
+				}
+				for i := 0; i < n; i++ {
+					ptr := reflect.New(outs[i])
+					tg = append(tg, ptr.Interface())
+					untouched = append(untouched, snapshot{ptr: ptr, before: c19Box(ptr.Elem())})
+				}
+				o = bigbuff.CallResults(tg...)
+				extraDesc = append(extraDesc, fmt.Sprintf("preRes=results(%d targets) ok=%v", n, preOK))
+			}
+			at := rapid.IntRange(0, mainResPos).Draw(t, "preResAt")
+			opts = append(opts[:at], append([]bigbuff.CallOption{o}, opts[at:]...)...)
+			if !preOK {
+				resOK = false
+				perturbed = true
+			}
+		}
+		if len(extraDesc) > 0 {
+			expectCall = argsOK && resOK
 		}
 
 		// ---- trace
@@ -524,6 +614,9 @@ func TestC19Callable(t *testing.T) {
 			"args=(" + strings.Join(argDesc, ",") + ")",
 			"res=" + resMode + "(" + strings.Join(resDesc, ",") + ")",
 			fmt.Sprintf("expectCall=%v fnPanics=%v", expectCall, doPanic),
+		}
+		if len(extraDesc) > 0 {
+			trace = append(trace, "extra: "+strings.Join(extraDesc, " ; "))
 		}
 		shape := "args"
 		if !argsOK {
@@ -689,6 +782,12 @@ func TestC19Callable(t *testing.T) {
 			}
 		}
 
+		for _, u := range untouched {
+			if now := c19Box(u.ptr.Elem()); !c19Same(now, u.before) {
+				vkit.Fail(t, "C19/results/overridden-target-touched", "the target of a results option that a later results option overrides was changed: before %v after %v\ncase: %v", u.before, now, trace)
+			}
+		}
+
 		if checkReuse != nil && reuse == "after" {
 			checkReuse()
 		}
@@ -697,6 +796,9 @@ func TestC19Callable(t *testing.T) {
 		cls := []string{"shape:" + shape, "res:" + resMode}
 		if variadic {
 			cls = append(cls, "variadic")
+		}
+		if len(extraDesc) > 0 {
+			cls = append(cls, "several-args-or-results-options")
 		}
 		if expectCall {
 			cls = append(cls, "verdict:call")
